@@ -85,11 +85,11 @@ func LRUHistories(h *Hist, seed int64, runs int, stats map[string]int) {
 						ev := c.Resize(uint(nb[0]), nb[1])
 						h.Ret(g, rec{"evicted": ev})
 					}
-					stats["lru_ops"]++
 				}
 			}(g, rand.New(rand.NewSource(r.Int63())))
 		}
 		wg.Wait()
 		stats["lru_histories"]++
+		stats["lru_ops"] += G * per
 	}
 }
